@@ -5,3 +5,4 @@ CONSTANTS
   MaxSteps = 16
   MaxDepth = 2
   EmitAll = FALSE
+  CrossRemark = TRUE
